@@ -27,6 +27,7 @@ def run(ctx: Ctx):
     )
     ctx.not_decided = ["value equality between two concrete runs"]
     assembly(ctx)
+    assemble_vector_table(ctx)
     non_interference(ctx)
     coordinate_typing(ctx)
     display_reductions(ctx)
@@ -55,6 +56,9 @@ def run(ctx: Ctx):
     from .common import id_truthiness
 
     id_truthiness(ctx)
+    from .common import transform_pairing_table
+
+    transform_pairing_table(ctx)
 
 
 # --------------------------------------------------------------------------- 1
@@ -91,6 +95,75 @@ def assembly(ctx: Ctx):
         else:
             want = "self._row_order_bogus_ids if format == ORDER_FORMAT.BOGUS_IDS else self._row_order_signed_indexes"
         ctx.check_expr("order-source", f"{CP}::{cname}.{meth}", body, want, "the reported order is the vector every output is indexed with")
+
+
+def assemble_vector_table(ctx: Ctx):
+    """`_Strand._assemble_vector(blocks)` evaluated (DECTAB, vectors as tuples) on model strands: it must return
+    concatenate(blocks)[order] for EVERY order - identity, a proper prefix (trailing rows hidden), a permutation, with and
+    without inserted rows.  Decides any fast path exactly: one that is taken only when nothing changes holds, one that is
+    also taken for a prefix of the payload order returns the hidden rows."""
+    from ..dectab import DTop, IndexInterp, Raises
+
+    st = ctx.repo.cls(CP, "_Strand")
+    m = ctx.repo.lookup(st, "_assemble_vector")
+    where = f"{CP}::_Strand._assemble_vector [table]"
+    body = SUMMARIZER.summarize(m.node, {"blocks": ast.Name(id="blocks", ctx=ast.Load())})
+
+    class _V(IndexInterp):
+        def ev(self, e):
+            if isinstance(e, ast.Subscript) and not isinstance(e.slice, (ast.Slice, ast.Tuple)):
+                base = self.ev(e.value)
+                idx = self.ev(e.slice)
+                if isinstance(base, tuple) and isinstance(idx, (tuple, list)) and all(isinstance(i, int) for i in idx):
+                    try:
+                        return tuple(base[i] for i in idx)
+                    except IndexError:
+                        raise Raises("IndexError", u(e)[:60])
+            return super().ev(e)
+
+        def _call(self, c, it):
+            f = u(c.func)
+            if f in ("np.concatenate", "np.hstack"):
+                parts = self.ev(c.args[0])
+                out = ()
+                for p_ in parts:
+                    out += tuple(p_)
+                return out
+            if f == "np.array_equal":
+                return tuple(self.ev(c.args[0])) == tuple(self.ev(c.args[1]))
+            if f in ("np.array", "np.asarray", "tuple", "list") and c.args:
+                return tuple(self.ev(c.args[0]))
+            return super()._call(c, it)
+
+    base = (10, 11, 12, 13)
+    models = [((), (0, 1, 2, 3)), ((), (0, 1, 2)), ((), (0,)), ((), ()), ((), (3, 2, 1, 0)), ((), (1, 0, 2, 3)), ((), (1, 2, 3)), ((20,), (0, 1, 2, 3, -1)), ((20,), (-1, 0, 1, 2, 3)), ((20,), (0, 1, 2, 3)), ((20, 21), (0, -2, 1, 2, -1, 3))]
+    bad, n = [], 0
+    try:
+        for subs, order in models:
+            def atoms(x, subs=subs, order=order):
+                t = u(x)
+                if t == "blocks":
+                    return (base, subs)
+                if t in (ROW_ORD, "self._row_order_signed_indexes"):
+                    return order
+                raise KeyError
+
+            want = tuple((base + subs)[i] for i in order)
+            n += 1
+            try:
+                got = tuple(_V(atoms).ev(body))
+            except Raises as r:
+                bad.append(f"subtotals {subs} order {order}: raises {r.etype}")
+                continue
+            if got != want:
+                bad.append(f"subtotals {subs} order {order}: {got}, specified {want}")
+    except DTop as t:
+        ctx.undecided("single-reindex.table", where, "DECTAB: " + str(t), "concatenate(blocks)[order] on model strands")
+        return
+    ctx.count("assemble-vector models", n)
+    ctx.ob("single-reindex.table", where, bad[:3] or f"{n} (subtotals, order) models", "concatenate(blocks)[order] for every order", not bad,
+           "rows hidden / pruned at the END of the payload order stay in every value output while the reported order and shape drop them")
+    ctx.require_min("assemble-vector models", 11)
 
 
 # --------------------------------------------------------------------------- 2
@@ -229,7 +302,7 @@ def coordinate_typing(ctx: Ctx):
 METHOD_REDUCERS = {"sum", "mean", "prod", "max", "min", "cumsum"}
 
 
-def display_reductions(ctx: Ctx):
+def display_reductions(ctx: Ctx, only=None):
     """A sum / mean / extreme taken over an ASSEMBLED array ranges over the displayed elements only: hidden and pruned ones
     are missing from it and every inserted subtotal is counted on top of its addends.  Applies to the partition classes
     (`self.X`) and to the classes that compute from a partition (`self._slice.X`, also through a local alias)."""
@@ -250,6 +323,8 @@ def display_reductions(ctx: Ctx):
     n, seen = 0, set()
     for where, fn, prefix, disp in targets:
         if not isinstance(fn, (ast.FunctionDef,)):
+            continue
+        if only is not None and not only(where):
             continue
         res = resolver(fn, multi=True)
         for node in ast.walk(fn):
